@@ -189,7 +189,10 @@ inline void absorb(const std::string &buf) { // parent side
         else if (t == 'B') s.blob = r;
     }
 }
-inline Fate forked(const std::function<void()> &fn, double timeout_s = 60.0, bool quiet_stderr = true) {
+// timeout_s is a kill timer for hangs.  Unless strict_timeout is set, slow is not a verdict: the timer is stretched to the job's remaining deadline (+120 s; children
+// watch the deadline themselves between cases) and a child killed after the deadline has passed counts as "deadline hit" (coverage cut, exhaustive=false), not as a death.
+inline Fate forked(const std::function<void()> &fn, double timeout_s = 60.0, bool quiet_stderr = true, bool strict_timeout = false) {
+    if (!strict_timeout) { double remain = S().deadline_s - elapsed(); if (remain < 1e15 && remain + 120 > timeout_s) timeout_s = remain + 120; if (timeout_s < 30) timeout_s = 30; }
     int pd[2], pe[2]; if (pipe(pd) || pipe(pe)) { perror("pipe"); exit(2); }
     fflush(stdout); fflush(stderr);
     pid_t pid = fork();
@@ -220,6 +223,7 @@ inline Fate forked(const std::function<void()> &fn, double timeout_s = 60.0, boo
     absorb(buf);
     Fate f; f.text = err.size() > 1500 ? err.substr(0, 1500) : err;
     if (WIFSIGNALED(st)) { f.kind = WTERMSIG(st) == SIGALRM ? Fate::TIMEOUT : Fate::SIGNALED; f.code = WTERMSIG(st); }
+    if (f.kind == Fate::TIMEOUT && !strict_timeout && elapsed() > S().deadline_s) { S().deadline_hit = true; S().exhaustive = false; f.kind = Fate::RETURNED; f.code = 0; stat_sum("children_cut_by_deadline", 1); }
     else if (WIFEXITED(st) && WEXITSTATUS(st) != 0) { f.kind = Fate::EXITED; f.code = WEXITSTATUS(st); }
     else { f.kind = Fate::RETURNED; f.code = 0; }
     return f;
